@@ -115,6 +115,7 @@ func main() {
 		}
 		if *flagTier == "thorough" && *flagMutant == "" && *flagPatch == "" {
 			mres = append(mres, runSeeded(p, res, kf)...)
+			mres = append(mres, runRefactors(p, res, kf)...)
 		}
 		code := report(prog, p, res, mres, seed, time.Since(start))
 		if code > exit {
@@ -245,6 +246,48 @@ func runSeeded(p *rules.Prop, base rt.Result, kf rt.KnownFile) []mutantResult {
 	return out
 }
 
+// runRefactors analyses the behaviour-preserving refactorings kept under /verif/refactors/<prop>/*.diff:
+// none may produce a new violation (status "silent"; "undecided" is tolerated and reported; "alarm" is a
+// false alarm of the checker).
+func runRefactors(p *rules.Prop, base rt.Result, kf rt.KnownFile) []mutantResult {
+	files, _ := filepath.Glob(filepath.Join(filepath.Dir(*flagKnown), "refactors", p.ID, "*.diff"))
+	baseBad := map[string]bool{}
+	for _, f := range base.Findings {
+		if f.Status == rt.Violation {
+			baseBad[key(f)] = true
+		}
+	}
+	var out []mutantResult
+	for _, d := range files {
+		r := mutantResult{ID: "refactor/" + p.ID + "/" + filepath.Base(d), Expect: "no new violation"}
+		ov, err := patchOverlay(*flagRepo, d)
+		if err != nil {
+			r.Status, r.Detail = "stale", "patch does not apply to the current tree"
+			out = append(out, r)
+			continue
+		}
+		prog, err := load.Load(load.Options{Dir: *flagRepo, Overlay: ov})
+		if err != nil {
+			r.Status, r.Detail = "stale", "refactored tree does not type-check: "+err.Error()
+			out = append(out, r)
+			continue
+		}
+		res := runProp(prog, p, "quick", kf)
+		r.Status = "silent"
+		if len(res.Undecided) > 0 {
+			r.Status = "silent-undecided"
+			r.Detail = key(res.Undecided[0])
+		}
+		for _, f := range res.Findings {
+			if f.Status == rt.Violation && !baseBad[key(f)] {
+				r.Status, r.By = "alarm", key(f)+" @ "+f.Pos
+			}
+		}
+		out = append(out, r)
+	}
+	return out
+}
+
 func mutantOverlay(repo string, m rules.Mutant) (map[string][]byte, bool, error) {
 	path := filepath.Join(repo, m.File)
 	b, err := os.ReadFile(path)
@@ -348,13 +391,17 @@ func report(prog *load.Program, p *rules.Prop, res rt.Result, mres []mutantResul
 	for _, r := range rulesList {
 		perRule[r] = map[string]int{"instances": res.Rules[r][0], "holding": res.Rules[r][1]}
 	}
-	killed, survived, stale := 0, 0, 0
+	killed, survived, stale, silent, alarms := 0, 0, 0, 0, 0
 	for _, m := range mres {
 		switch m.Status {
 		case "killed":
 			killed++
 		case "stale":
 			stale++
+		case "silent", "silent-undecided":
+			silent++
+		case "alarm":
+			alarms++
 		default:
 			survived++
 		}
@@ -383,6 +430,8 @@ func report(prog *load.Program, p *rules.Prop, res rt.Result, mres []mutantResul
 		cov["mutants_killed"] = killed
 		cov["mutants_survived"] = survived
 		cov["mutants_stale"] = stale
+		cov["refactorings_silent"] = silent
+		cov["refactorings_false_alarm"] = alarms
 	}
 	ev := map[string]any{
 		"property_id": p.ID,
@@ -415,9 +464,9 @@ func report(prog *load.Program, p *rules.Prop, res rt.Result, mres []mutantResul
 		fmt.Printf("  rule %-6s instances=%d holding=%d\n", r, res.Rules[r][0], res.Rules[r][1])
 	}
 	if mres != nil {
-		fmt.Printf("  mutants: %d killed, %d survived, %d stale\n", killed, survived, stale)
+		fmt.Printf("  mutants: %d killed, %d survived, %d stale; refactorings: %d silent, %d false alarms\n", killed, survived, stale, silent, alarms)
 		for _, m := range mres {
-			if m.Status != "killed" {
+			if m.Status != "killed" && m.Status != "silent" && m.Status != "silent-undecided" {
 				fmt.Printf("  SELFTEST-WARN mutant %s expected %s: %s %s\n", m.ID, m.Expect, m.Status, m.Detail)
 			}
 		}
@@ -430,7 +479,7 @@ func report(prog *load.Program, p *rules.Prop, res rt.Result, mres []mutantResul
 		fmt.Printf("UNDECIDED property=%s rule=%s %s %s: %s\n", p.ID, f.Rule, f.Construct, f.Pos, f.Detail)
 		code = 2
 	}
-	if *flagStrict && (survived > 0 || stale > 0) {
+	if *flagStrict && (survived > 0 || stale > 0 || alarms > 0) {
 		code = 2
 	}
 	if len(res.Violations) > 0 {
